@@ -37,7 +37,17 @@ def handle (st : DState) (line : String) : DState × String :=
       -- the operator semantics used by the source translator, for comparison with CPython
       | op :: rest => match parseInts rest with
         | some xs0 =>
-          if op == "idx" then
+          if op == "unpack4sL" then
+            (st, showExcept (fun (r : List Int × Int) => showIntList r.1 ++ " | " ++ toString r.2) (Py.unpack4sL xs0))
+          else if op == "unpackHHH" then
+            (st, showExcept (fun (r : Int × Int × Int) => s!"{r.1} {r.2.1} {r.2.2}") (Py.unpackHHH xs0))
+          else if op == "readUpTo" then
+            match xs0 with
+            | n :: data =>
+              let r := Py.readUpTo { rest := data, pos := 0 } n
+              (st, showIntList r.1 ++ " | " ++ toString r.2.pos)
+            | [] => (st, "bad-op")
+          else if op == "idx" then
             match xs0 with
             | i :: xs => (st, showExcept toString (Py.idx xs i))
             | [] => (st, "bad-op")
